@@ -26,7 +26,7 @@ ASSUMPTIONS = ["a re-registration on the same token starts a new registration (i
                "'a notification rendered at or after the last change is eventually sent' is judged at quiescence for "
                "registrations still alive, on what the server transmitted (not on what the lossy network delivered)"]
 EXPECTED_PROBES = ["change_during_render", "coalesced_burst", "change_while_in_flight", "end_by_rst", "end_by_new_request", "end_by_deregister",
-                   "end_by_timeout", "end_by_icmp", "end_by_error_notification", "end_by_last_notification", "end_by_shutdown",
+                   "end_by_timeout", "end_by_icmp", "end_by_senderr", "end_by_error_notification", "end_by_last_notification", "end_by_shutdown",
                    "non_registration", "several_observers", "rst_on_non_notification"]
 
 REACTIONS = ["ack", "ack", "ack", "rst", "silent", "rereg", "dereg"]
@@ -47,6 +47,11 @@ def gen(r, tier):
         ops.append({"op": r.choice(["error_notify", "last_notify"]), "t": round(r.uniform(1.5, t + 1), 4)})
     if r.chance(0.15):
         ops.append({"op": "icmp", "t": round(r.uniform(1.5, t + 1), 4), "observer": r.randrange(nobs)})
+    if r.chance(0.15):
+        # the next datagram(s) the server hands to the socket for this observer fail in sendmsg(): the error is
+        # reported from inside the send, i.e. while whoever sends (the notification loop) is still in the middle of it
+        ops.append({"op": "senderr", "t": round(r.uniform(0.0, t + 1), 4), "observer": r.randrange(nobs),
+                    "n": r.choice([1, 1, 2]), "errno": r.choice([101, 113, 1])})
     if r.chance(0.1):
         ops.append({"op": "shutdown", "t": round(r.uniform(1.5, t + 1), 4)})
     ops.sort(key=lambda o: o["t"])
@@ -67,12 +72,14 @@ def systematic(tier):
                     out.append({"observers": [{"id": 0, "con": con, "t": 0.1, "reactions": reactions},
                                               {"id": 1, "con": True, "t": 0.2, "reactions": ["ack"] * 12}],
                                 "ops": ops, "net": {}, "render_delay": 0.0005 if (pos + int(gap * 10)) % 2 else 0})
-    for kind in ("error_notify", "last_notify", "icmp", "shutdown"):
+    for kind in ("error_notify", "last_notify", "icmp", "shutdown", "senderr"):
         for tt in (2.0005, 2.5, 9.0):
             ops = [{"op": "change", "t": 2.0, "n": 2}, {"op": "change", "t": 4.0, "n": 1}, {"op": "change", "t": 12.0, "n": 1}]
             op = {"op": kind, "t": tt}
             if kind == "icmp":
                 op["observer"] = 0
+            if kind == "senderr":
+                op.update(observer=0, n=1, errno=101)
             ops.append(op)
             ops.sort(key=lambda o: o["t"])
             out.append({"observers": [{"id": 0, "con": True, "t": 0.1, "reactions": ["ack"] * 12},
@@ -269,6 +276,9 @@ def execute(sim, scn):
             if op["observer"] in observers:
                 global_ends.append((loop.now, "icmp", op["observer"]))
                 sim.net.icmp(srv, observers[op["observer"]].addr, 111)
+        elif k == "senderr":
+            if op["observer"] in observers:
+                armed[observers[op["observer"]].addr] = [op["n"], op["errno"]]
         elif k == "shutdown":
             global_ends.append((loop.now, "shutdown", None))
 
@@ -276,6 +286,25 @@ def execute(sim, scn):
                 await ctx.shutdown()
                 shutdown_done.append(loop.now)
             loop.create_task(sd())
+
+    armed = {}
+    senderrs = []  # (t, position in the event log, destination)
+    net_sendmsg = sim.net.sendmsg
+
+    def failing_sendmsg(sock, data, src_ip, dst):
+        a = armed.get((dst[0], dst[1]))
+        if a and sock.addr is not None and sock.addr[1] == 5683:
+            a[0] -= 1
+            if a[0] <= 0:
+                del armed[(dst[0], dst[1])]
+            sim.net.count("fault.senderr")
+            sim.log("net", "senderr", fmt((dst[0], dst[1])), a[1], data.hex())
+            senderrs.append((loop.now, len(sim.events), (dst[0], dst[1])))
+            sim.probe("sendmsg_failed")
+            raise OSError(a[1], "injected sendmsg failure")
+        return net_sendmsg(sock, data, src_ip, dst)
+
+    sim.net.sendmsg = failing_sendmsg
 
     for op in scn["ops"]:
         loop.at(op["t"], do, op)
@@ -415,6 +444,10 @@ def execute(sim, scn):
                 for (t, err) in e.get("icmp", []):
                     if t >= t0 - TOL:
                         ends.append((t, "icmp"))
+            for (t, p_, dst) in senderrs:
+                # a failing sendmsg() is reported as a transport error for the destination
+                if dst == E and pos0 < p_ <= pos1:
+                    ends.append((t, "senderr"))
             ncancel = len(reg["cancelled"])
             t_c = reg["cancelled"][0] if ncancel else None
             # only causes that happened while the registration was still alive count
